@@ -80,3 +80,310 @@ Lemma print_tree_expr_leaf p :
   print_tree (NNull p) = print_node (NNull p) /\ (forall x, print_tree (NBool p x) = print_node (NBool p x)) /\
   (forall z, print_tree (NInt p z) = print_node (NInt p z)).
 Proof. repeat split. Qed.
+
+(* ---- nodes with a child held in a field of interface type (ast.Node / ast.ParentNode) ----
+   The child enters the translation as two parameters: "the field is nil" and the value of its String() (gotrans:
+   n.F.String() is None = Go's panic when the field is nil).  The models hold the child itself, an optional child where
+   Go tests the field against nil; the lemmas say: if the child prints as s, the node prints as the translated method
+   says for (not nil, s), and a missing optional child is the nil field (whatever is put for its String()). *)
+Lemma print_acc_expr_matches_source p ns e s :
+  print_node e = Some s -> print_node (NAccExpr p ns e) = src_ast_DataRefExprNode_String false s ns.
+Proof.
+  intros H. cbn [print_node]. rewrite H. cbn [obind]. unfold src_ast_DataRefExprNode_String. cbv zeta. cbn [go_bind].
+  destruct ns; cbn [app]; now rewrite <- ?app_assoc.
+Qed.
+
+Lemma print_log_matches_source p body s :
+  print_tree body = Some s -> print_tree (NLog p body) = src_ast_LogNode_String false s.
+Proof.
+  intros H. cbn [print_tree]. rewrite H. cbn [obind]. unfold src_ast_LogNode_String. cbn [go_bind].
+  now rewrite <- ?app_assoc.
+Qed.
+
+Lemma print_msg_placeholder_matches_source p name body s :
+  print_tree body = Some s -> print_tree (NMsgPlaceholder p name body) = src_ast_MsgPlaceholderNode_String false s.
+Proof. intros H. cbn [print_tree]. rewrite H. reflexivity. Qed.
+
+(* Body is a ParentNode (a ListNode): its String() is the concatenation of the children's *)
+Lemma print_msg_plural_case_matches_source p v body s :
+  omap concat_b (opt_all (map print_tree body)) = Some s ->
+  print_tree (NMsgPluralCase p v body) = src_ast_MsgPluralCaseNode_String false s v.
+Proof.
+  intros H. cbn [print_tree]. cbv zeta. rewrite H. cbn [obind]. unfold src_ast_MsgPluralCaseNode_String. cbn [go_bind].
+  now rewrite <- ?app_assoc.
+Qed.
+
+Lemma print_css_matches_source p e suffix :
+  match e with
+  | None => forall junk, print_tree (NCss p None suffix) = src_ast_CssNode_String true junk suffix
+  | Some x => forall s, print_tree x = Some s -> print_tree (NCss p (Some x) suffix) = src_ast_CssNode_String false s suffix
+  end.
+Proof.
+  destruct e as [x|].
+  - intros s H. cbn [print_tree]. rewrite H. cbn [obind]. unfold src_ast_CssNode_String. cbv zeta. cbn [negb go_bind].
+    now rewrite <- ?app_assoc.
+  - intros junk. cbn [print_tree]. unfold src_ast_CssNode_String. cbv zeta. cbn [negb go_bind]. now rewrite <- ?app_assoc.
+Qed.
+
+Lemma print_if_cond_matches_source p cond body sb :
+  print_tree body = Some sb ->
+  match cond with
+  | None => forall junk, print_tree (NIfCond p None body) = src_ast_IfCondNode_String true junk false sb
+  | Some c => forall sc, print_tree c = Some sc -> print_tree (NIfCond p (Some c) body) = src_ast_IfCondNode_String false sc false sb
+  end.
+Proof.
+  intros Hb. destruct cond as [c|].
+  - intros sc Hc. cbn [print_tree]. rewrite Hc, Hb. cbn [omap obind]. unfold src_ast_IfCondNode_String. cbv zeta. cbn [negb go_bind].
+    reflexivity.
+  - intros junk. cbn [print_tree]. rewrite Hb. cbn [obind]. unfold src_ast_IfCondNode_String. cbv zeta. cbn [negb go_bind]. reflexivity.
+Qed.
+
+Lemma print_for_matches_source p var lst body ifempty sl sb :
+  print_tree lst = Some sl -> print_tree body = Some sb ->
+  match ifempty with
+  | None => forall junk, print_tree (NFor p var lst body None) = src_ast_ForNode_String false sl false sb true junk var
+  | Some ie => forall se, print_tree ie = Some se ->
+               print_tree (NFor p var lst body (Some ie)) = src_ast_ForNode_String false sl false sb false se var
+  end.
+Proof.
+  intros Hl Hb. destruct ifempty as [ie|].
+  - intros se He. cbn [print_tree]. rewrite Hl, Hb, He. cbn [omap obind]. unfold src_ast_ForNode_String. cbv zeta. cbn [negb go_bind].
+    f_equal. unfold c_for, c_in, c_ifempty, c_for_end. cbn [app]. rewrite <- ?app_assoc. cbn [app]. reflexivity.
+  - intros junk. cbn [print_tree]. rewrite Hl, Hb. cbn [obind]. unfold src_ast_ForNode_String. cbv zeta. cbn [negb go_bind].
+    f_equal. unfold c_for, c_in, c_for_end. cbn [app]. rewrite <- ?app_assoc. cbn [app]. reflexivity.
+Qed.
+
+(* ---- fmt.Sprintf with a constant format (%s of a string or of a child's String(), %q = strconv.Quote) ----
+   %s of a nil child prints fmt's "%!s(<nil>)" and does not panic; the models have no nil child here, the lemmas are
+   about the non-nil case.  strconv.Quote is a parameter; its instance is Model/AstPrintCmd.v's go_quote (a hand model of
+   library code, None outside its domain) wherever that answers. *)
+Lemma print_let_value_matches_source p name e s :
+  print_tree e = Some s -> print_tree (NLetValue p name e) = Some (src_ast_LetValueNode_String false s name).
+Proof. intros H. cbn [print_tree]. rewrite H. reflexivity. Qed.
+
+Lemma print_let_content_matches_source p name body s :
+  print_tree body = Some s -> print_tree (NLetContent p name body) = Some (src_ast_LetContentNode_String false s name).
+Proof. intros H. cbn [print_tree]. rewrite H. reflexivity. Qed.
+
+Lemma print_param_value_matches_source p key v s :
+  print_tree v = Some s -> print_tree (NParamValue p key v) = src_ast_CallParamValueNode_String false s key.
+Proof. intros H. cbn [print_tree]. rewrite H. reflexivity. Qed.
+
+Lemma print_param_content_matches_source p key c s :
+  print_tree c = Some s -> print_tree (NParamContent p key c) = src_ast_CallParamContentNode_String false s key.
+Proof. intros H. cbn [print_tree]. rewrite H. reflexivity. Qed.
+
+Definition st_quote (x : bstr) : bstr := match go_quote x with Some q => q | None => [] end.
+
+Lemma print_msg_matches_source p id meaning desc body qd s :
+  (meaning = [] \/ exists qm, go_quote meaning = Some qm) -> go_quote desc = Some qd ->
+  omap concat_b (opt_all (map print_tree body)) = Some s ->
+  print_tree (NMsg p id meaning desc body) = src_ast_MsgNode_String st_quote false s meaning desc.
+Proof.
+  intros Hm Hd Hb. cbn [print_tree]. cbv zeta. rewrite Hd, Hb. unfold src_ast_MsgNode_String, st_quote. rewrite Hd. cbv zeta.
+  destruct Hm as [->|[qm Hq]].
+  - reflexivity.
+  - rewrite Hq. destruct meaning as [|m0 mr]; [reflexivity|]. cbn [omap obind bstr_eqb negb go_bind]. reflexivity.
+Qed.
+
+(* ---- nodes whose children sit in a slice of nodes that String() ranges over ----
+   The slice enters the translation as the list of what each element's String() returns (None: a nil element, Go's
+   panic).  The lemmas put the model's own prints of the children there: the translated method and the model agree on
+   every list of children, including on None (a child outside the printing domain / a nil element). *)
+Lemma st_join_cons (sep x : bstr) (r : list bstr) : join sep (x :: r) = x ++ concat_b (map (fun y => sep ++ y) r).
+Proof.
+  revert x. induction r as [|y r IH]; intro x; [cbn [join map concat_b]; now rewrite app_nil_r|].
+  change (join sep (x :: y :: r)) with (x ++ sep ++ join sep (y :: r)).
+  rewrite (IH y). cbn [map concat_b]. now rewrite <- app_assoc.
+Qed.
+
+(* for i, x := range xs { if i > 0 { expr += sep }; expr += x.String() } *)
+(* the cases (first element or not) are split on the index itself; the source's test, whatever its spelling, is decided by lia *)
+Ltac st_join_loop IH :=
+  intros [|[x|] l] acc i Hi; cbn -[Z.gtb Z.ltb Z.geb Z.leb Z.eqb];
+  [ destruct (Z.gtb i 0); cbn [map concat_b join]; now rewrite app_nil_r
+  | rewrite IH by lia; destruct (opt_all l) as [l'|];
+    destruct (Z_lt_dec 0 i); st_decide_ifs; cbv beta iota zeta; rewrite ?IH by lia; try reflexivity;
+    rewrite ?st_join_cons; cbn [map concat_b]; rewrite <- ?app_assoc; reflexivity
+  | reflexivity ].
+
+Lemma func_loop_matches : forall (l : list (option bstr)) (acc : bstr) (i : Z), (0 <= i)%Z ->
+  src_ast_FunctionNode_String_loop1 l acc i =
+  match opt_all l with
+  | Some l' => Some (go_exit (acc ++ (if Z.gtb i 0 then concat_b (map (fun y => s_comma ++ y) l') else join s_comma l')))
+  | None => None
+  end.
+Proof. fix IH 1. st_join_loop IH. Qed.
+
+Lemma print_func_matches_source p name args :
+  print_node (NFunc p name args) = src_ast_FunctionNode_String (map print_node args) name.
+Proof.
+  cbn [print_node]. unfold src_ast_FunctionNode_String. cbv zeta. rewrite func_loop_matches by lia.
+  destruct (opt_all (map print_node args)); cbn [obind Z.gtb Z.compare]; [|reflexivity]. now rewrite <- !app_assoc.
+Qed.
+
+Lemma listlit_loop_matches : forall (l : list (option bstr)) (acc : bstr) (i : Z), (0 <= i)%Z ->
+  src_ast_ListLiteralNode_String_loop1 l acc i =
+  match opt_all l with
+  | Some l' => Some (go_exit (acc ++ (if Z.gtb i 0 then concat_b (map (fun y => s_comma_space ++ y) l') else join s_comma_space l')))
+  | None => None
+  end.
+Proof. fix IH 1. st_join_loop IH. Qed.
+
+Lemma print_listlit_matches_source p items :
+  print_node (NListLit p items) = src_ast_ListLiteralNode_String (map print_node items).
+Proof.
+  cbn [print_node]. unfold src_ast_ListLiteralNode_String. cbv zeta. rewrite listlit_loop_matches by lia.
+  destruct (opt_all (map print_node items)); cbn [obind Z.gtb Z.compare]; [|reflexivity]. now rewrite <- !app_assoc.
+Qed.
+
+Lemma switch_case_loop_matches : forall (l : list (option bstr)) (acc : bstr) (i : Z), (0 <= i)%Z ->
+  src_ast_SwitchCaseNode_String_loop1 l acc i =
+  match opt_all l with
+  | Some l' => Some (go_exit (acc ++ (if Z.gtb i 0 then concat_b (map (fun y => s_comma ++ y) l') else join s_comma l')))
+  | None => None
+  end.
+Proof. fix IH 1. st_join_loop IH. Qed.
+
+Lemma print_switch_case_matches_source p values body sb :
+  print_tree body = Some sb ->
+  print_tree (NSwitchCase p values body) = src_ast_SwitchCaseNode_String (map print_tree values) false sb.
+Proof.
+  intros Hb. cbn [print_tree]. unfold src_ast_SwitchCaseNode_String. cbv zeta. rewrite switch_case_loop_matches by lia.
+  destruct (opt_all (map print_tree values)); cbn [obind Z.gtb Z.compare go_bind]; [|reflexivity].
+  rewrite Hb. cbn [obind]. now rewrite <- !app_assoc.
+Qed.
+
+(* for _, x := range xs { expr += x.String() } *)
+Ltac st_concat_loop IH :=
+  intros [|[x|] l] acc; cbn;
+  [ now rewrite app_nil_r
+  | rewrite IH; destruct (opt_all l) as [l'|]; [|reflexivity]; cbn [concat_b]; rewrite <- ?app_assoc; reflexivity
+  | reflexivity ].
+
+Lemma dataref_loop_matches : forall (l : list (option bstr)) (acc : bstr),
+  src_ast_DataRefNode_String_loop1 l acc =
+  match opt_all l with Some l' => Some (go_exit (acc ++ concat_b l')) | None => None end.
+Proof. fix IH 1. st_concat_loop IH. Qed.
+
+Lemma print_dataref_matches_source p key access :
+  print_node (NDataRef p key access) = src_ast_DataRefNode_String (map print_node access) key.
+Proof.
+  cbn [print_node]. unfold src_ast_DataRefNode_String. cbv zeta. rewrite dataref_loop_matches.
+  destruct (opt_all (map print_node access)); cbn [obind]; [|reflexivity]. now rewrite <- !app_assoc.
+Qed.
+
+Lemma print_loop_matches : forall (l : list (option bstr)) (acc : bstr),
+  src_ast_PrintNode_String_loop1 l acc =
+  match opt_all l with Some l' => Some (go_exit (acc ++ concat_b l')) | None => None end.
+Proof. fix IH 1. st_concat_loop IH. Qed.
+
+Lemma print_print_matches_source p arg dirs s :
+  print_node arg = Some s ->
+  print_node (NPrint p arg dirs) = src_ast_PrintNode_String false s (map print_node dirs).
+Proof.
+  intros H. cbn [print_node]. rewrite H. cbn [obind]. unfold src_ast_PrintNode_String. cbn [go_bind]. cbv zeta.
+  rewrite print_loop_matches.
+  destruct (opt_all (map print_node dirs)); cbn [obind]; [|reflexivity]. now rewrite <- !app_assoc.
+Qed.
+
+Lemma switch_loop_matches : forall (l : list (option bstr)) (acc : bstr),
+  src_ast_SwitchNode_String_loop1 l acc =
+  match opt_all l with Some l' => Some (go_exit (acc ++ concat_b l')) | None => None end.
+Proof. fix IH 1. st_concat_loop IH. Qed.
+
+Lemma print_switch_matches_source p v cases sv :
+  print_tree v = Some sv ->
+  print_tree (NSwitch p v cases) = src_ast_SwitchNode_String false sv (map print_tree cases).
+Proof.
+  intros H. cbn [print_tree]. cbv zeta. rewrite H. cbn [obind]. unfold src_ast_SwitchNode_String. cbn [go_bind]. cbv zeta.
+  rewrite switch_loop_matches.
+  destruct (opt_all (map print_tree cases)); cbn [obind omap]; [|reflexivity]. now rewrite <- !app_assoc.
+Qed.
+
+Lemma msg_plural_loop_matches : forall (l : list (option bstr)) (acc : bstr),
+  src_ast_MsgPluralNode_String_loop1 l acc =
+  match opt_all l with Some l' => Some (go_exit (acc ++ concat_b l')) | None => None end.
+Proof. fix IH 1. st_concat_loop IH. Qed.
+
+(* Default is a ParentNode (a ListNode): its String() is the concatenation of its children's *)
+Lemma print_msg_plural_matches_source p name v cases dflt sv sd :
+  print_tree v = Some sv -> omap concat_b (opt_all (map print_tree dflt)) = Some sd ->
+  print_tree (NMsgPlural p name v cases dflt) = src_ast_MsgPluralNode_String false sv (map print_tree cases) false sd.
+Proof.
+  intros H Hd. cbn [print_tree]. cbv zeta. rewrite H, Hd. cbn [obind]. unfold src_ast_MsgPluralNode_String. cbn [go_bind]. cbv zeta.
+  rewrite msg_plural_loop_matches.
+  destruct (opt_all (map print_tree cases)); cbn [obind omap go_bind]; [|reflexivity]. now rewrite <- !app_assoc.
+Qed.
+
+Lemma soydoc_loop_matches : forall (l : list (option bstr)) (acc : bstr),
+  src_ast_SoyDocNode_String_loop1 l acc =
+  match opt_all l with Some l' => Some (go_exit (acc ++ concat_b (map (fun s => c_soydoc_line ++ s) l'))) | None => None end.
+Proof.
+  fix IH 1. intros [|[x|] l] acc; cbn;
+  [ now rewrite app_nil_r
+  | rewrite IH; destruct (opt_all l) as [l'|]; [|reflexivity]; cbn [map concat_b]; rewrite <- ?app_assoc; reflexivity
+  | reflexivity ].
+Qed.
+
+Lemma print_soydoc_matches_source p params :
+  print_tree (NSoyDoc p params) = src_ast_SoyDocNode_String (map print_tree params).
+Proof.
+  cbn [print_tree]. unfold src_ast_SoyDocNode_String. destruct params as [|x r]; [reflexivity|].
+  replace (Z.eqb (go_len (map print_tree (x :: r))) 0) with false by (unfold go_len; cbn [map length]; lia).
+  cbv zeta. rewrite soydoc_loop_matches.
+  destruct (opt_all (map print_tree (x :: r))); cbn [obind]; [|reflexivity]. now rewrite <- !app_assoc.
+Qed.
+
+(* first := true; for _, x := range xs { if !first { expr += "," }; expr += x.String(); first = false } *)
+Lemma directive_loop_matches : forall (l : list (option bstr)) (acc : bstr) (first : bool),
+  src_ast_PrintDirectiveNode_String_loop1 l acc first =
+  match opt_all l with
+  | Some l' => Some (go_exit (acc ++ (if first then join s_comma l' else concat_b (map (fun y => s_comma ++ y) l')),
+                              match l' with [] => first | _ => false end))
+  | None => None
+  end.
+Proof.
+  fix IH 1. intros [|[x|] l] acc first; cbn;
+  [ destruct first; cbn [map concat_b join]; now rewrite app_nil_r
+  | rewrite IH; destruct (opt_all l) as [l'|]; [|reflexivity];
+    destruct first; cbn [negb]; rewrite ?st_join_cons; cbn [map concat_b]; rewrite <- ?app_assoc; destruct l'; reflexivity
+  | reflexivity ].
+Qed.
+
+Lemma print_directive_matches_source p name args :
+  print_node (NDirective p name args) = src_ast_PrintDirectiveNode_String (map print_node args) name.
+Proof.
+  cbn [print_node]. unfold src_ast_PrintDirectiveNode_String. destruct args as [|x r]; [reflexivity|].
+  replace (Z.eqb (go_len (map print_node (x :: r))) 0) with false by (unfold go_len; cbn [map length]; lia).
+  cbv zeta. rewrite directive_loop_matches.
+  destruct (opt_all (map print_node (x :: r))); cbn [obind]; [|reflexivity]. now rewrite <- !app_assoc.
+Qed.
+
+Lemma call_loop_matches : forall (l : list (option bstr)) (acc : bstr),
+  src_ast_CallNode_String_loop1 l acc =
+  match opt_all l with Some l' => Some (go_exit (acc ++ concat_b l')) | None => None end.
+Proof. fix IH 1. st_concat_loop IH. Qed.
+
+(* CallNode: `n.Params == nil` decides between {call .../} and {call ...}...{/call}; the model holds a list and takes the
+   empty list for the nil slice (what the parser builds for a call without parameters: tied by the correspondence) *)
+Lemma print_call_matches_source p name alldata data params :
+  let nil_params := match params with [] => true | _ => false end in
+  match data with
+  | None => forall junk, print_tree (NCall p name alldata None params) =
+                         src_ast_CallNode_String true junk nil_params (map print_tree params) name alldata
+  | Some d => forall sd, print_tree d = Some sd ->
+                         print_tree (NCall p name alldata (Some d) params) =
+                         src_ast_CallNode_String false sd nil_params (map print_tree params) name alldata
+  end.
+Proof.
+  intro nil_params. destruct data as [d|].
+  - intros sd Hd. cbn [print_tree]. cbv zeta. rewrite Hd. unfold src_ast_CallNode_String. cbv zeta. cbn [negb omap].
+    destruct alldata; cbn [go_bind obind]; destruct params as [|x r]; subst nil_params; cbv iota;
+      rewrite ?call_loop_matches; try destruct (opt_all (map print_tree (x :: r))); cbn [obind omap]; try reflexivity;
+      f_equal; rewrite <- ?app_assoc; reflexivity.
+  - intros junk. cbn [print_tree]. cbv zeta. unfold src_ast_CallNode_String. cbv zeta. cbn [negb].
+    destruct alldata; cbn [go_bind obind]; destruct params as [|x r]; subst nil_params; cbv iota;
+      rewrite ?call_loop_matches; try destruct (opt_all (map print_tree (x :: r))); cbn [obind omap]; try reflexivity;
+      f_equal; rewrite <- ?app_assoc; reflexivity.
+Qed.
